@@ -256,6 +256,11 @@ def const_image(bt, size, ln):
     return [(bt + (a >> 16), a & 0xFFFF, min(ln, size - a)) for a in range(0, size, ln)]
 
 
+def image_from(bt, start, end, ln):
+    """lines of constant size ln covering the flat addresses start..end-1 (type = bt + address // 65536, offset = address % 65536)"""
+    return [(bt + (a >> 16), a & 0xFFFF, min(ln, end - a)) for a in range(start, end, ln)]
+
+
 def gen_image_lines(r, L, bt, size, sizes="mix", straddle=None):
     """contiguous image 0..size-1 from tag type bt on, as a list of single lines (ty, offs, len) in address order.
     Lines come in stretches of equal length (they become one symbolic run).  straddle=False: every line is cut at the end
@@ -292,7 +297,7 @@ def gen_image_lines(r, L, bt, size, sizes="mix", straddle=None):
     return out
 
 
-def damage(r, lines, kind):
+def damage(r, lines, kind, top=0):
     """remove lines so that gaps / a non-zero start appear; returns the remaining lines (file order kept)"""
     n = len(lines)
     if kind == "none" or n < 2:
@@ -311,6 +316,18 @@ def damage(r, lines, kind):
     if kind == "two-single-blocks":                      # A, gap, B, gap, C... (on a stretch of at most 60 lines)
         k = r.randrange(0, max(1, n - 60))
         return lines[:k] + [l for i, l in enumerate(lines[k:k + 60]) if i % 2 == 0] + lines[k + 60:]
+    if kind in ("page-hole", "page-hole2", "page-back"):
+        # the page field and the offset field disagree: from one line on every tag type is raised by one (two), so that the
+        # hole is EXACTLY 65536 (131072) bytes and the 16-bit offsets continue as if nothing were missing; page-back: a
+        # stretch in the middle is raised by one page, the lines behind it jump back by exactly 65536
+        up = 2 if kind == "page-hole2" else 1
+        if max(l[0] for l in lines) + up > top:
+            return lines
+        k = r.randrange(1, n)
+        if kind == "page-back" and n >= 3:
+            j = r.randrange(k + 1, n + 1)
+            return lines[:k] + [(t + 1, o, l) for t, o, l in lines[k:j]] + lines[j:]
+        return lines[:k] + [(t + up, o, l) for t, o, l in lines[k:]]
     if kind == "swap":                                   # out of order (sorting of blocks)
         k = r.randrange(1, n)
         return lines[k:] + lines[:k] if lines[k][0] == lines[0][0] else lines
@@ -498,7 +515,9 @@ def gen_file(r, tier="quick", big=None, small=False):
                 sizes = r.choice(["big", "mix"])
         lines = gen_image_lines(r, L, bt + (1 if nonbase else 0), size, sizes)
         if defect and r.random() < 0.45:
-            lines = damage(r, lines, r.choice(["nz", "gap-before-last", "gap-before-last", "gap-mid", "gaps", "two-single-blocks", "swap"]))
+            lines = damage(r, lines, r.choice(["nz", "gap-before-last", "gap-before-last", "gap-mid", "gaps", "two-single-blocks", "swap",
+                                               "page-hole", "page-hole", "page-hole2", "page-back"]),
+                           top=bt + (1 if nonbase else 0) + PAGES.get(bt, 1) - 1 - (1 if nonbase else 0))
         if not lines:                                    # every section of the grammar carries data
             lines = [(bt + (1 if nonbase else 0), 0, 3)]
         runs = to_runs(L, lines)
@@ -624,7 +643,8 @@ def gen_direct(r, big=None):
             size = min(size, PAGES[bt] * 0x10000)
             sizes = r.choice(["big", "big", "uniform"])
     lines = gen_image_lines(r, L, bt, size, sizes)
-    lines = damage(r, lines, r.choice(["none", "nz", "gap-before-last", "gap-mid", "gaps", "gaps", "two-single-blocks", "swap"]))
+    lines = damage(r, lines, r.choice(["none", "nz", "gap-before-last", "gap-mid", "gaps", "gaps", "two-single-blocks", "swap",
+                                       "page-hole", "page-hole", "page-hole2", "page-back"]), top=bt + PAGES[bt] - 1)
     return L, to_runs(L, lines)
 
 
